@@ -35,6 +35,10 @@ pub struct RunReport {
     pub nontrivial: bool,
     pub hash_seeds: Vec<u64>,
     pub sample: Option<Value>,
+    /// hash over everything the run observed (call histories, exit codes, stdout, stderr,
+    /// tree snapshots): two executions of one scenario must agree on it
+    #[serde(default)]
+    pub digest: u64,
 }
 
 impl RunReport {
@@ -440,6 +444,51 @@ pub fn run_batch(
         let _ = h.join();
     }
     Arc::try_unwrap(total).ok().unwrap().into_inner().unwrap()
+}
+
+/// Determinism self-test helper: runs the given run indices and returns, per index, a hash of
+/// the complete report (violations, counters, digest of all observations).
+pub fn run_collect(cfg: &WorkerCfg, engine: &str, variant: &str, verif_seed: u64, n: u64, n_workers: usize) -> BTreeMap<u64, u64> {
+    let next = Arc::new(AtomicU64::new(0));
+    let out = Arc::new(Mutex::new(BTreeMap::new()));
+    let mut handles = Vec::new();
+    for _ in 0..n_workers {
+        let (cfg, next, out) = (cfg.clone(), next.clone(), out.clone());
+        let (engine, variant) = (engine.to_string(), variant.to_string());
+        handles.push(std::thread::spawn(move || {
+            let mut w = Worker::spawn(&cfg);
+            loop {
+                let i = next.fetch_add(1, Ordering::SeqCst);
+                if i >= n {
+                    break;
+                }
+                let seed = rng::run_seed(verif_seed, &format!("{engine}/{variant}"), i);
+                let req = json!({"cmd": "run", "engine": engine, "variant": variant, "seed": seed, "tier": "quick"});
+                let h = match w.request(&req, Duration::from_secs(120)) {
+                    ExecResult::Report(mut r) => {
+                        r.sample = None;
+                        rng::fnv(&serde_json::to_string(&r).unwrap())
+                    }
+                    ExecResult::Trap(st, line) => {
+                        w.kill();
+                        w = Worker::spawn(&cfg);
+                        rng::fnv(&format!("trap {st} {}", trap_violation(&engine, &variant, &st, &line).class))
+                    }
+                    ExecResult::Hang => {
+                        w.kill();
+                        w = Worker::spawn(&cfg);
+                        rng::fnv("hang")
+                    }
+                };
+                out.lock().unwrap().insert(i, h);
+            }
+            w.kill();
+        }));
+    }
+    for h in handles {
+        let _ = h.join();
+    }
+    Arc::try_unwrap(out).ok().unwrap().into_inner().unwrap()
 }
 
 /// Executes one scenario in a fresh worker and returns the classes of violations
